@@ -165,4 +165,148 @@ func checkC10(c *runCtx) {
 	for _, n := range []string{"taskloop-run-cancel-close", "taskloop-run-run-close", "taskloop-run-close-close"} {
 		csExplore(c, n, b+2, dl, nil)
 	}
+	// coarse mode on a live agent: call/return histories of three concurrent API users against a sequential reference
+	csExplore(c, "api-linearizable", b, dl, nil)
+}
+
+// ---------------------------------------------------------------- coarse mode: linearizability of the public API
+
+type linOp struct {
+	thread     int
+	name       string
+	arg1, arg2 string
+	res        string
+	call, ret  int
+}
+
+type linState struct{ lu, lp, ru, rp string }
+
+// linApply is the sequential reference: credentials as the documentation describes them.
+func linApply(st linState, op linOp) (linState, string) {
+	switch op.name {
+	case "SetRemoteCredentials":
+		st.ru, st.rp = op.arg1, op.arg2
+
+		return st, "<nil>"
+	case "GetRemoteUserCredentials":
+		return st, st.ru + "/" + st.rp
+	case "Restart":
+		st.lu, st.lp, st.ru, st.rp = op.arg1, op.arg2, "", ""
+
+		return st, "<nil>"
+	case "GetLocalUserCredentials":
+		return st, st.lu + "/" + st.lp
+	}
+	panic("op " + op.name)
+}
+
+// linearizable: is there a total order consistent with real time in which every result matches the reference?
+func linearizable(init linState, ops []linOp) bool {
+	n := len(ops)
+	used := make([]bool, n)
+	var rec func(st linState, done int) bool
+	rec = func(st linState, done int) bool {
+		if done == n {
+			return true
+		}
+		for i := 0; i < n; i++ {
+			if used[i] {
+				continue
+			}
+			// op i may come next only if no unused op returned before op i was called
+			ok := true
+			for j := 0; j < n; j++ {
+				if !used[j] && j != i && ops[j].ret < ops[i].call {
+					ok = false
+
+					break
+				}
+			}
+			if !ok {
+				continue
+			}
+			st2, want := linApply(st, ops[i])
+			if want != ops[i].res {
+				continue
+			}
+			used[i] = true
+			if rec(st2, done+1) {
+				return true
+			}
+			used[i] = false
+		}
+
+		return false
+	}
+
+	return rec(init, 0)
+}
+
+func init() {
+	csScenarios["api-linearizable"] = c10linearizable
+}
+
+func c10linearizable() zzmc.Scenario {
+	return zzmc.Scenario{
+		Name:     "api-linearizable",
+		Focus:    []string{"taskloop.go"},
+		MaxSteps: 4000,
+		Setup: func(s *zzmc.Sched) func(string) (string, string) {
+			a, err := NewAgentWithOptions(WithNet(vNet{}), WithMulticastDNSMode(MulticastDNSModeDisabled), WithNetworkTypes([]NetworkType{NetworkTypeUDP4}),
+				WithCandidateTypes([]CandidateType{CandidateTypeHost}), WithLocalCredentials(vUfragA, vPwdA), WithLoggerFactory(nopFactory{}))
+			if err != nil {
+				panic(err)
+			}
+			clock := 0
+			var ops []linOp
+			do := func(th int, name, a1, a2 string, f func() string) {
+				clock++
+				op := linOp{thread: th, name: name, arg1: a1, arg2: a2, call: clock}
+				op.res = f()
+				clock++
+				op.ret = clock
+				ops = append(ops, op)
+			}
+			creds := func(u, p string, e error) string {
+				if e != nil {
+					return e.Error()
+				}
+
+				return u + "/" + p
+			}
+			s.Go("T1", func() {
+				do(1, "SetRemoteCredentials", "remoteU1", "remotePwd1remotePwd1remotePwd1", func() string {
+					return fmt.Sprint(a.SetRemoteCredentials("remoteU1", "remotePwd1remotePwd1remotePwd1"))
+				})
+				do(1, "GetRemoteUserCredentials", "", "", func() string { return creds(a.GetRemoteUserCredentials()) })
+			})
+			s.Go("T2", func() {
+				do(2, "Restart", "localU2xx", "localPwd2localPwd2localPwd2xx", func() string { return fmt.Sprint(a.Restart("localU2xx", "localPwd2localPwd2localPwd2xx")) })
+				do(2, "GetLocalUserCredentials", "", "", func() string { return creds(a.GetLocalUserCredentials()) })
+			})
+			s.Go("T3", func() {
+				do(3, "GetRemoteUserCredentials", "", "", func() string { return creds(a.GetRemoteUserCredentials()) })
+				do(3, "SetRemoteCredentials", "remoteU3", "remotePwd3remotePwd3remotePwd3", func() string {
+					return fmt.Sprint(a.SetRemoteCredentials("remoteU3", "remotePwd3remotePwd3remotePwd3"))
+				})
+			})
+
+			return func(dead string) (string, string) {
+				fail := ""
+				if len(ops) != 6 && dead == "" {
+					fail += fmt.Sprintf("ONLY-%d-OF-6-CALLS-RETURNED ", len(ops))
+				}
+				if !linearizable(linState{lu: vUfragA, lp: vPwdA}, ops) {
+					fail += fmt.Sprintf("NOT-LINEARIZABLE %+v ", ops)
+				}
+				var sig []string
+				for _, o := range ops {
+					sig = append(sig, fmt.Sprintf("%d:%s=%s", o.thread, o.name[:4], o.res))
+				}
+				_ = a.Close()
+
+				return fmt.Sprint(sig), fail
+			}
+		},
+	}
 }
